@@ -1,6 +1,6 @@
 From Coq Require Import ZArith List Bool Reals Lra.
 From Flocq Require Import Core BinarySingleNaN.
-Require Import GV.FloatBase GV.FloatLemmas GV.AngleM GV.AngleProofs GV.GeonumM GV.GeonumProofs.
+Require Import GV.FloatBase GV.FloatLemmas GV.AngleM GV.AngleProofs GV.GeonumM GV.GeonumProofs GV.NewProofs GV.CtorProofs.
 Open Scope R_scope.
 Require Import GV.Properties.C07.
 Check C07_angle_steps : forall a, canonp (rem a) ->
@@ -33,3 +33,15 @@ Check C07_four_more : forall g, canonp (rem (ang g)) ->
   steps_to (ang g) (ang (gdual (gdual g))) 4 /\
   steps_to (ang g) (ang (integrate (differentiate g))) 4.
 Print Assumptions C07_four_more.
+Check C07_copy_blade : forall g other, canonp (rem (ang g)) ->
+  (0 <= blade (ang g) < 2 ^ 50)%Z -> (0 <= blade (ang other) < 2 ^ 50)%Z ->
+  mag (copy_blade g other) = mag g /\
+  R_ (rem (ang (copy_blade g other))) = R_ (rem (ang g)) /\
+  ((blade (ang g) <= blade (ang other))%Z -> blade (ang (copy_blade g other)) = blade (ang other)) /\
+  ((blade (ang other) < blade (ang g))%Z ->
+     (blade (ang g) + 3 <= blade (ang (copy_blade g other)) <= blade (ang g) + 6)%Z /\
+     (blade (ang (copy_blade g other)) mod 4 = blade (ang other) mod 4)%Z).
+Print Assumptions C07_copy_blade.
+Check C07_grade_angle_range : forall a, canonp (rem a) ->
+  fin (grade_angle a) /\ 0 <= R_ (grade_angle a) < 4 * R_ Q.
+Print Assumptions C07_grade_angle_range.
